@@ -28,10 +28,10 @@ enum {
   S_balanced = 4,       /* "balanced" */
   S_none = 5,           /* "none"    */
   S_core = 6, S_socket = 7, S_machine = 8,
-  S_local_m_priority = 9, S_abp_m_priority = 10,
-  T_USER0 = 11,         /* T_USER0 .. T_USER0+3: arbitrary user supplied strings (numerals or not) */
-  T_FRESH0 = 15,        /* T_FRESH0, T_FRESH0+1: results of std::to_string(n) */
-  NTOK = 17
+  S_local_m_priority = 9, S_abp_m_priority = 10, S_local_m_priority_m_fifo = 11,
+  T_USER0 = 12,         /* T_USER0 .. T_USER0+3: arbitrary user supplied strings (numerals or not) */
+  T_FRESH0 = 16,        /* T_FRESH0, T_FRESH0+1: results of std::to_string(n) */
+  NTOK = 18
 };
 #define N_FRESH 2
 
